@@ -86,4 +86,38 @@ def groupEmbeds [Inhabited S] (blocks : List (List (List (List S)))) (B L : Nat)
   let rows := blocks.flatten
   (List.range B).map fun b => (List.range L).map fun l => rows.map fun r => (r.getD b []).getD l default
 
+/-! ## the assembled representation, end to end (`PoseRepresentation.__call__`) -/
+
+inductive Rep2 where | distance | angle deriving DecidableEq, Repr
+inductive Rep3 where | innerAngle | pointLine deriving DecidableEq, Repr
+
+def Rep2.apply (sc : Scalar S) (atanF : S → S) [Inhabited S] : Rep2 → List (MV S) → List (MV S) → S
+  | .distance, p, q => distanceRep sc p q
+  | .angle, p, q => angleRep sc atanF p q
+
+def Rep3.apply (sc : Scalar S) (acosF : S → S) : Rep3 → List (MV S) → List (MV S) → List (MV S) → S
+  | .innerAngle, a, b, c => innerAngleRep sc acosF a b c
+  | .pointLine, a, b, c => pointLineRep sc a b c
+
+/-- `points[i][batch][len]` of the `(points, batch, len, dims)` view -/
+def cellPt (pts : List (List (List (List (MV S))))) (i b l : Nat) : List (MV S) := ((pts.getD i []).getD b []).getD l []
+
+/-- a limb module on `points[limb_pt1s]`, `points[limb_pt2s]`: one row per limb, each the `(batch, len)` grid of the module's value -/
+def rep2Rows (f : List (MV S) → List (MV S) → S) (pts : List (List (List (List (MV S))))) (l1 l2 : List Nat) (B L : Nat) : List (List (List S)) :=
+  (l1.zip l2).map fun ij => (List.range B).map fun b => (List.range L).map fun l => f (cellPt pts ij.1 b l) (cellPt pts ij.2 b l)
+
+def rep3Rows (f : List (MV S) → List (MV S) → List (MV S) → S) (pts : List (List (List (List (MV S))))) (tri : List (Nat × Nat × Nat)) (B L : Nat) : List (List (List S)) :=
+  tri.map fun t => (List.range B).map fun b => (List.range L).map fun l => f (cellPt pts t.1 b l) (cellPt pts t.2.1 b l) (cellPt pts t.2.2 b l)
+
+/-- `PoseRepresentation(header, rep_modules1, rep_modules2, rep_modules3)(src)`: `n1` copies of the points module, the limb modules `m2`, the triple modules `m3`,
+    grouped to `(batch, len, embed)`. `none`: the constructor raises (a header without limbs fails an `assert`, one without a chain fails to unpack). -/
+def poseRepresentation (sc : Scalar S) (atanF acosF : S → S) [Inhabited S] (comps : List Comp) (n1 : Nat) (m2 : List Rep2) (m3 : List Rep3)
+    (pts : List (List (List (List (MV S))))) (B L : Nat) : Option (List (List (List S))) :=
+  let l1 := (limbPoints comps).1
+  let l2 := (limbPoints comps).2
+  let tri := trianglePoints l1 l2
+  if l1.isEmpty || tri.isEmpty then none
+  else some (groupEmbeds (List.replicate n1 (pointsRepRows sc pts ((comps.headD default).format).length)
+      ++ m2.map (fun m => rep2Rows (m.apply sc atanF) pts l1 l2 B L) ++ m3.map (fun m => rep3Rows (m.apply sc acosF) pts tri B L)) B L)
+
 end PoseVerif
